@@ -136,9 +136,8 @@ def runEvF (R : Rounding) (n : Net) : Ev → Net × List Rec
           else if !decide (R.rnd (ch.load + s) ≤ capI) then stay .full
           else
             let n1 : Net := { n with chans := n.chans.set c { ch with load := R.rnd (ch.load + s) } }
-            let rcv := receivers ch.en i
             let r := runEvsF R n1 nested
-            (r.1, r.2 ++ [{ wireless := true, k := c, verdict := .carried, enS, enR := true, rcv, size := s,
+            (r.1, r.2 ++ [{ wireless := true, k := c, verdict := .carried, enS, enR := true, rcv := [], size := s,
                             loadBefore := ch.load, load := cloadOf r.1 c, bw := capOf r.1 c, capS := capI }])
   | .setEn k endA v =>
     match n.links[k]? with
@@ -191,10 +190,20 @@ def runEvF (R : Rounding) (n : Net) : Ev → Net × List Rec
           else if !decide (R.rnd (ch.load + s) ≤ capI) then stay .full
           else
             let n1 : Net := { n with chans := n.chans.set c { ch with load := R.rnd (ch.load + s) } }
-            let rcv := receivers ch.en i
             let r := runEvsF R n1 nested
-            (r.1, r.2 ++ [{ wireless := true, k := c, verdict := .lost, enS, enR := true, rcv, size := s,
+            (r.1, r.2 ++ [{ wireless := true, k := c, verdict := .lost, enS, enR := true, rcv := [], size := s,
                             loadBefore := ch.load, load := cloadOf r.1 c, bw := capOf r.1 c, capS := capI }])
+
+  | .wrecv c i j =>
+    match n.chans[c]? with
+    | none => (n, [{ wireless := true, k := c, verdict := .nolink, enS := false, enR := false, rcv := [j], size := 0,
+                     loadBefore := 0, load := 0, bw := 0, capS := 0 }])
+    | some ch =>
+      let enJ := match ch.en[j]? with | some b => b | none => false
+      let enI := match ch.en[i]? with | some b => b | none => false
+      let ok := enJ && j != i
+      (n, [{ wireless := true, k := c, verdict := hearVerdict ok, enS := enI, enR := ok, rcv := [j], size := 0,
+             loadBefore := ch.load, load := ch.load, bw := ch.cap, capS := 0 }])
 
 def runEvsF (R : Rounding) (n : Net) : List Ev → Net × List Rec
   | [] => (n, [])
@@ -296,6 +305,7 @@ theorem runEvF_eq (R : Rounding) (n : Net) (e : Ev) (h : Inv n) (hs : Small n) :
             · simp [h3]
   | setEn k endA v => unfold runEvF runEv; rfl
   | wsetEn c i v => unfold runEvF runEv; rfl
+  | wrecv c i j => unfold runEvF runEv; rfl
   | lost k fromA s nested =>
     unfold runEvF runEv
     cases hk : n.links[k]? with
